@@ -116,6 +116,7 @@ instance : FOps UInt64 where
   isNaN a := (Float.ofBits a).isNaN
   deg2rad := 0x3f91df46a2529d39   -- 0.01745329251994329577
   r2d := 0x404ca5dc1a63c1f8       -- 57.29577951308232088
+  zero := 0
 
 abbrev XP := Nat × Bool   -- the executable `P`: (SR index, constructor has run)
 
@@ -141,6 +142,17 @@ def Oracle.xy (o : Oracle) (key : Tok) : Except String (UInt64 × UInt64) :=
   | some _ => .error "ORACLE-UNAVAILABLE"
   | none => .error ("ORACLE-MISS:" ++ "_".intercalate key)
 
+def Oracle.xyz (o : Oracle) (key : Tok) : Except String (UInt64 × UInt64 × UInt64) :=
+  match o.find key with
+  | some ["ok", c, d, e] =>
+    match parseU64 c, parseU64 d, parseU64 e with
+    | some c, some d, some e => .ok (c, d, e)
+    | _, _, _ => .error "ORACLE-BAD"
+  | some ["err", m] => .error m
+  | some ["panic", m] => .error ("panic:" ++ m)
+  | some _ => .error "ORACLE-UNAVAILABLE"
+  | none => .error ("ORACLE-MISS:" ++ "_".intercalate key)
+
 def mkCore (o : Oracle) : Core UInt64 XP String where
   init p :=
     ((p.1, true),
@@ -151,7 +163,7 @@ def mkCore (o : Oracle) : Core UInt64 XP String where
       | _ => some ("ORACLE-MISS:init_" ++ toString p.1))
   inv p a b := o.xy ["inv", toString p.1, u64Hex a, u64Hex b]
   fwd p a b := o.xy ["fwd", toString p.1, u64Hex a, u64Hex b]
-  dt i j a b := o.xy ["dt", toString i, toString j, u64Hex a, u64Hex b]
+  dt i j a b z := o.xyz ["dt", toString i, toString j, u64Hex a, u64Hex b, u64Hex z]
   axisErr := "AXIS"
 
 structure SRRec where
@@ -238,7 +250,7 @@ def judgeHist (lhs rhs : Tok) : String :=
       let orc : Oracle := { recs := secs.filterMap fun s =>
         match s with
         | "O" :: "init" :: i :: v => some (["init", i], v)
-        | "O" :: "dt" :: i :: j :: a :: b :: v => some (normKey ["dt", i, j, a, b], v)
+        | "O" :: "dt" :: i :: j :: a :: b :: z :: v => some (normKey ["dt", i, j, a, b, z], v)
         | "O" :: k :: i :: a :: b :: v => some (normKey [k, i, a, b], v)
         | _ => none }
       let core := mkCore orc
